@@ -524,7 +524,7 @@ class World:
 
     def quiescent(self) -> bool:
         r = self.reactor
-        if self.live_generators > 0:
+        if self.live_generators > 0 or self.net.inflight > 0:
             return False
         if r.asynchronous._async:
             return False
